@@ -26,7 +26,8 @@ CONSTANTS Kinds,        \* cap kinds the flow's URL may point at (subset of AllK
           NAddons,      \* number of scripted addons in front of the hooks
           Faults,       \* fault positions (subset of AllFaults)
           MaxCalls,     \* late addon calls (resume/take/preempt on a held flow) explored
-          CloseSet      \* sessions whose closing (viewer logout + garbage collection) is explored
+          CloseSet,     \* sessions whose closing (viewer logout + garbage collection) is explored
+          MaxOthers     \* events of OTHER flows that may wait in the proxy -> main queue around ours
 
 AllKinds == {"none", "login", "normal", "seed", "eq", "upload", "temp", "asset", "wrapper", "proxyonly"}
 \* "clearcap": the addon clears the attribution (flow.cap_data = None); "setcap": it replaces it
@@ -52,10 +53,12 @@ VARIABLES tgt,     \* [k, s, r]: what the flow's URL denotes (fixed per behaviou
                    \*        an addon that changes the attribution was configured (recap)
           out,     \* observation of the last step (excluded from the state VIEW)
           calls,
-          closed   \* sessions that were closed (SessionManager.close_session) and whose objects are gone
+          closed,  \* sessions that were closed (SessionManager.close_session) and whose objects are gone
+          oth      \* other flows' request events: Seq([r, pos, q, back]); r: handling it raises out of
+                   \* the pump; pos: queued "ahead" of / "behind" our event; q: still queued; back: callbacks
 
-vars == <<tgt, px, fromQ, toQ, mf, hb, ap, handled, fixed, out, calls, closed>>
-View == <<tgt, px, fromQ, toQ, mf, hb, ap, handled, fixed, calls, closed>>
+vars == <<tgt, px, fromQ, toQ, mf, hb, ap, handled, fixed, out, calls, closed, oth>>
+View == <<tgt, px, fromQ, toQ, mf, hb, ap, handled, fixed, calls, closed, oth>>
 
 Events == {"request", "response"}
 NoCap == [k |-> "unset", s |-> 0, r |-> 0]        \* cap_data is None
@@ -202,7 +205,7 @@ Init == /\ tgt \in Targets
         /\ hb = [e \in Events |-> 0] /\ ap = [e \in Events |-> 0] /\ handled = {}
         /\ fixed = [browser |-> FALSE, rinj |-> FALSE, preempted |-> FALSE, recap |-> FALSE]
         /\ out = [n |-> "init", exc |-> FALSE, res |-> "ok"]
-        /\ calls = 0 /\ closed = {}
+        /\ calls = 0 /\ closed = {} /\ oth = <<>>
 
 \* IPCInterceptionAddon.request: flags from the headers, intercept, queue the state
 InterceptRequest(browser, hdr) ==
@@ -212,7 +215,7 @@ InterceptRequest(browser, hdr) ==
          /\ fromQ' = Append(fromQ, [ev |-> "request", meta |-> m])
          /\ fixed' = [fixed EXCEPT !.browser = browser, !.rinj = m.rinj]
     /\ out' = [n |-> "InterceptRequest", exc |-> FALSE, res |-> "ok"]
-    /\ UNCHANGED <<tgt, toQ, mf, hb, ap, handled, calls, closed>>
+    /\ UNCHANGED <<tgt, toQ, mf, hb, ap, handled, calls, closed, oth>>
 
 \* SLMITMAddon.responseheaders + response: the server's answer (unless one was injected),
 \* bridge replies get a fake cap, intercept, queue.  Whether an injected asset response is
@@ -227,7 +230,7 @@ InterceptResponse(bridge) ==
          /\ px' = [phase |-> "resp", icpt |-> TRUE, meta |-> m]
          /\ fromQ' = Append(fromQ, [ev |-> "response", meta |-> m])
     /\ out' = [n |-> "InterceptResponse", exc |-> FALSE, res |-> "ok"]
-    /\ UNCHANGED <<tgt, toQ, mf, hb, ap, handled, fixed, calls, closed>>
+    /\ UNCHANGED <<tgt, toQ, mf, hb, ap, handled, fixed, calls, closed, oth>>
 
 \* MITMProxyEventManager.pump_proxy_event, one queued event
 HandleBody(cfg) ==
@@ -239,10 +242,14 @@ HandleBody(cfg) ==
                /\ mf' = [ev |-> ev, meta |-> st.meta, taken |-> st.taken, resumed |-> st.resumed]
                /\ toQ' = toQ \o [i \in 1..Len(st.puts) |-> [kind |-> "callback", ev |-> ev, meta |-> st.puts[i]]]
                /\ hb' = [hb EXCEPT ![ev] = @ + Len(st.puts)]
-               /\ out' = [n |-> "Handle", exc |-> st.exc, res |-> "ok"]
+               /\ out' = [n |-> "Handle", exc |-> st.exc \/ \E i \in DOMAIN oth : oth[i].q /\ oth[i].r, res |-> "ok"]
           /\ handled' = handled \cup {ev}
           /\ fromQ' = Tail(fromQ)
     /\ fixed' = [fixed EXCEPT !.recap = @ \/ \E i \in DOMAIN cfg.addons : cfg.addons[i] \in {"clearcap", "setcap"}]
+    \* the main process pumps until the queue is empty (MITMProxyEventManager.run): every other
+    \* event waiting there -- ahead of ours or behind it -- is handled and handed back too, exactly
+    \* once each, whichever of them raises
+    /\ oth' = [i \in DOMAIN oth |-> IF oth[i].q THEN [oth[i] EXCEPT !.q = FALSE, !.back = @ + 1] ELSE oth[i]]
     /\ UNCHANGED <<tgt, px, ap, calls, closed>>
 
 Handle(cfg) == fromQ # <<>> /\ Relevant(Head(fromQ).ev, cfg, Head(fromQ).meta) /\ HandleBody(cfg)
@@ -268,7 +275,7 @@ AddonCall(op, mod) ==
                     [] op = "preempt" ->
                          /\ toQ' = Append(toQ, [kind |-> "preempt", ev |-> mf.ev, meta |-> mf.meta])
                          /\ UNCHANGED <<mf, hb>>
-    /\ UNCHANGED <<tgt, px, fromQ, ap, handled, fixed, closed>>
+    /\ UNCHANGED <<tgt, px, fromQ, ap, handled, fixed, closed, oth>>
 
 \* IPCInterceptionAddon._pump_callbacks, one item.  bad: the state dict is unusable
 \* (set_state raises) -- the original flow must be resumed all the same.
@@ -286,7 +293,7 @@ Apply(bad) ==
     /\ fixed' = [fixed EXCEPT !.preempted = @ \/ Head(toQ).kind = "preempt"]
     /\ toQ' = Tail(toQ)
     /\ out' = [n |-> "Apply", exc |-> FALSE, res |-> IF bad THEN "bad" ELSE "ok"]
-    /\ UNCHANGED <<tgt, fromQ, mf, hb, handled, calls, closed>>
+    /\ UNCHANGED <<tgt, fromQ, mf, hb, handled, calls, closed, oth>>
 
 \* The viewer logs out: SessionManager.close_session, and the session's and its regions' objects
 \* become unreferenced and are collected.  Queue items and the proxy-side flow carry identifiers
@@ -297,7 +304,7 @@ CloseBody(s) ==
     /\ closed' = closed \cup {s}
     /\ mf' = IF mf.meta.cap.s = s THEN [mf EXCEPT !.meta.cap = Gone(@)] ELSE mf
     /\ out' = [n |-> "SessionCloses", exc |-> FALSE, res |-> "ok"]
-    /\ UNCHANGED <<tgt, px, fromQ, toQ, hb, ap, handled, fixed, calls>>
+    /\ UNCHANGED <<tgt, px, fromQ, toQ, hb, ap, handled, fixed, calls, oth>>
 \* explored: one closing per behaviour, any time after the first event was handled while nothing
 \* waits for the main process (held by an addon, handed back, between request and response)
 SessionCloses(s) == s \in CloseSet /\ closed = {} /\ mf.ev # "none" /\ fromQ = <<>> /\ CloseBody(s)
@@ -306,7 +313,17 @@ SessionCloses(s) == s \in CloseSet /\ closed = {} /\ mf.ev # "none" /\ fromQ = <
 \* point -- also while an item is still on its way through the queue.  Nothing may change; in
 \* particular an intercepted flow stays intercepted (HeldUntilApplied).
 IdlePoll == /\ out' = [n |-> "IdlePoll", exc |-> FALSE, res |-> "ok"]
-            /\ UNCHANGED <<tgt, px, fromQ, toQ, mf, hb, ap, handled, fixed, calls, closed>>
+            /\ UNCHANGED <<tgt, px, fromQ, toQ, mf, hb, ap, handled, fixed, calls, closed, oth>>
+
+\* Another flow is intercepted and its request event queued for the main process: in front of our
+\* event (ours is about to be intercepted) or behind it (ours is waiting).  Several events are
+\* then pending when the main process pumps.
+EnqueueOther(r) ==
+    /\ Len(oth) < MaxOthers
+    /\ fromQ # <<>> \/ (~px.icpt /\ px.phase \in {"start", "mid"} /\ toQ = <<>>)
+    /\ oth' = Append(oth, [r |-> r, pos |-> IF fromQ = <<>> THEN "ahead" ELSE "behind", q |-> TRUE, back |-> 0])
+    /\ out' = [n |-> "EnqueueOther", exc |-> FALSE, res |-> "ok"]
+    /\ UNCHANGED <<tgt, px, fromQ, toQ, mf, hb, ap, handled, fixed, calls, closed>>
 
 Next == \/ \E b, h \in BOOLEAN : InterceptRequest(b, h)
         \/ \E b \in BOOLEAN : InterceptResponse(b)
@@ -315,6 +332,7 @@ Next == \/ \E b, h \in BOOLEAN : InterceptRequest(b, h)
         \/ \E bad \in BadApply : Apply(bad)
         \/ \E s \in CloseSet : SessionCloses(s)
         \/ IdlePoll
+        \/ \E r \in BOOLEAN : EnqueueOther(r)
 
 Spec == Init /\ [][Next]_vars
 
@@ -354,6 +372,9 @@ AttributionKept == ("request" \in handled /\ Owned(tgt.k) /\ px.phase # "dead" /
                      => \A i \in 1..Len(toQ) : toQ[i].meta.cap = tgt \/ (tgt.s \in closed /\ toQ[i].meta.cap = Gone(tgt))
 AppliedAttribution == (ap["request"] = 1 /\ Owned(tgt.k) /\ px.phase \in {"mid", "resp", "end"} /\ ~fixed.recap)
                         => px.meta.cap = tgt \/ (tgt.s \in closed /\ px.meta.cap = Gone(tgt))
+\* the law is per flow: whatever else waits in the queue and whichever handler raises, every
+\* event handed over is handed back exactly once
+OthersExactlyOnce == \A i \in DOMAIN oth : oth[i].back = (IF oth[i].q THEN 0 ELSE 1)
 \* the main-process object never shows a session that is gone
 GoneReadsNone == mf.meta.cap.s \notin closed
 \* closing a session neither hands a flow back nor prevents it: the other invariants are stated
